@@ -260,6 +260,67 @@ def standin_resolution(tier, seed):
 standin_resolution.prop = "C10"
 
 
+
+def standin_value_of(tier, seed):
+    """ParamResolver.value_of against plain substitution for every expression form x every partial / full assignment on a value grid
+    (negative bases, zero, symbolic left-overs); string values in resolver-like dictionaries"""
+    import warnings
+
+    import cirq
+    import sympy
+
+    a, b, c = sympy.symbols("a b c")
+    forms = [a, 2 ** a, a ** b, sympy.sqrt(a), a ** 0.5, a ** -1, (a + b) ** 2, 2 ** (a + b), sympy.exp(a), sympy.sin(a * sympy.pi), a / b, sympy.Abs(a), a ** 2 + b ** 2, a * b * c,
+             a - b - c, sympy.pi ** a, (a * b) ** c, sympy.cos(a) + 1, a ** sympy.Rational(1, 3), sympy.Max(a, b), a % 2, sympy.floor(a), 1 / (a + b), sympy.log(a + 3),
+             sympy.Piecewise((a, a > 0), (b, True)), sympy.I * a]
+    vals = {a: [0.25, -4, 2, 0], b: [0.5, 3, -0.25], c: [1.5, -2]}
+    cases, fails = 0, []
+    for f in forms:
+        for keys in ([a], [b], [a, b], [a, b, c], [c]):
+            for vs in itertools.product(*[vals[k] for k in keys]):
+                asg = dict(zip(keys, vs))
+                try:
+                    want = sympy.sympify(f).subs(asg)
+                except Exception:
+                    continue
+                if want.has(sympy.zoo, sympy.nan, sympy.oo, -sympy.oo):
+                    continue
+                cases += 1
+                shown = {str(k): v for k, v in asg.items()}
+                try:
+                    with warnings.catch_warnings():
+                        warnings.simplefilter("ignore")
+                        got = cirq.ParamResolver(shown).value_of(f)
+                except Exception as ex:
+                    fails.append(dict(args=dict(expression=str(f), values=shown), failed="value_of-raised", clause=f"value_of raised {ex!r}; substitution gives {want}"))
+                    continue
+                if want.free_symbols:
+                    ok = isinstance(got, sympy.Basic) and got.free_symbols == want.free_symbols and abs(complex((got - want).subs({s_: 0.37 for s_ in want.free_symbols}))) < 1e-9
+                else:
+                    try:
+                        ok = abs(complex(got) - complex(want)) < 1e-9
+                    except Exception:
+                        ok = False
+                if not ok:
+                    fails.append(dict(args=dict(expression=str(f), values=shown, got=repr(got)), failed="value_of-vs-substitution", clause=f"value_of gives {got!r}, substitution gives {want}"))
+    # a string value names a parameter: one resolver, not one per character
+    for d, n_points in (({"a": "theta"}, 1), ({"a": "theta", "b": 0.5}, 1), ({"a": "xy", "b": [1, 2, 3]}, 3)):
+        cases += 1
+        with warnings.catch_warnings():
+            warnings.simplefilter("ignore")
+            got = list(cirq.to_resolvers(d))
+        if len(got) != n_points or any(r.param_dict.get("a") != d["a"] for r in got):
+            fails.append(dict(args=dict(sweepable=repr(d), got=repr(got)[:300]), failed="string-valued-dict", clause=f"to_resolvers gives {len(got)} resolvers; expected {n_points}, each mapping a to the parameter named {d['a']!r}"))
+    seen, uniq = set(), []
+    for f_ in fails:
+        k = (f_["failed"], f_["args"].get("expression"))
+        if k not in seen:
+            seen.add(k)
+            uniq.append(f_)
+    return dict(function="cirq-core/cirq/study/resolver.py:ParamResolver.value_of", case="value-of", bound="26 expression forms x 5 assignment subsets x value grid {0.25, -4, 2, 0} x {0.5, 3, -0.25} x {1.5, -2} (exhaustive over the grid)",
+                cases=cases, distinct=cases, failures=len(uniq), exhaustive=True, _fails=uniq[:4])
+standin_value_of.prop = "C10"
+
 def _rebuild(g, sub):
     import cirq
 
@@ -510,7 +571,7 @@ def standin_sample_frames(tier, seed):
 standin_sample_frames.prop = "C10"
 
 
-STANDINS = [standin_sweeps, standin_resolution, standin_resolve_after_edits, standin_flatten, standin_sample_frames]
+STANDINS = [standin_sweeps, standin_resolution, standin_value_of, standin_resolve_after_edits, standin_flatten, standin_sample_frames]
 
 
 def _replay_own(ob, seed):
